@@ -450,7 +450,16 @@ func (ctx *Context) evaluate() {
 		isGE      bool
 	}
 
+	// 嵌套的WOD算符(如 5a(1a0k1+8))：进入内层前保存外层状态，内层结算后恢复
+	wodStateStack := []struct {
+		pool      IntType
+		points    IntType
+		threshold IntType
+		isGE      bool
+	}{}
+
 	wodInit := func() {
+		wodStateStack = append(wodStateStack, wodState)
 		wodState.pool = 1
 		wodState.points = 10   // 面数，默认d10
 		wodState.threshold = 8 // 成功线，默认9
@@ -1082,6 +1091,8 @@ func (ctx *Context) evaluate() {
 
 			// 每一轮骰点都计入算力，避免加骰线很低、面数很大时骰出天文数字的骰子
 			num, _, _, detailText, within := rollWoD(ctx.RandSrc, addLine, wodState.pool, wodState.points, wodState.threshold, wodState.isGE, getRollMode(), func(n IntType) bool { return !numOpCountAdd(n) })
+			wodState = wodStateStack[len(wodStateStack)-1]
+			wodStateStack = wodStateStack[:len(wodStateStack)-1]
 			if !within {
 				return
 			}
